@@ -60,7 +60,7 @@ FAIL_KINDS = [("rc", 1), ("rc", 2), ("rc", 255), ("sig", -11)]
 def budget(tier):
     if tier == "quick":
         return {"runs": 3200, "chunk": 10, "wall_cap": 400.0, "det_sample": 6}
-    return {"runs": 40000, "chunk": 25, "wall_cap": 3300.0, "det_sample": 30}
+    return {"runs": 130000, "chunk": 25, "wall_cap": 3300.0, "det_sample": 30}
 
 
 def pre_checks(tier):
